@@ -472,12 +472,19 @@ def _disjoint(fields):
     """
     Return fields as a disjoint set.
     """
-    for m, n in combinations(range(len(fields)), 2):
-        if lentil.extent.intersect(fields[m]['extent'], fields[n]['extent']):
-            fields[m]['field'].extend(fields[n]['field'])
-            fields[m]['extent'] = boundary(fields[m]['field'])
-            fields.pop(n)
-            return _disjoint(fields)
+    # (a loop rather than a recursive call per merge: the depth of the recursion
+    # was the number of merges, which ends in a RecursionError for about a
+    # thousand overlapping fields)
+    merged = True
+    while merged:
+        merged = False
+        for m, n in combinations(range(len(fields)), 2):
+            if lentil.extent.intersect(fields[m]['extent'], fields[n]['extent']):
+                fields[m]['field'].extend(fields[n]['field'])
+                fields[m]['extent'] = boundary(fields[m]['field'])
+                fields.pop(n)
+                merged = True
+                break
     return fields
 
 
